@@ -114,7 +114,7 @@ def gen_observe(r, k):
         ncalls = max(ncalls, 2)
     fail_call = r.randrange(0, ncalls - 1) if has_fail else -1   # a failing run in the middle, good calls after it
     for c in range(ncalls):
-        mode = r.choice(["product", "product", "sequential"])
+        mode = r.choice(["product", "product", "sequential", "product", "sequential", "custom"])
         with_fail = c == fail_call
         dask = r.random() < 0.35 and not with_fail
         nk = 1 if (mode == "sequential" and dask) else r.choice([1, 2, 2])   # F12 (C05/C07): dask zips sequential sweeps
@@ -147,6 +147,11 @@ def gen_observe(r, k):
                 params.append(dict(key=key, values=values_for(r, key, r.choice([2, 3]), with_fail=with_fail)))
         if not with_fail and not reject and not single and r.random() < 0.06:
             params.append(dict(key=K + "nomodel.arguments.x", values=[1.0, 2.0]))      # unknown key: refused up front
+        if mode == "custom":
+            # the rows of the file are the runs: one value per parameter and row
+            n = min(len(q["values"]) for q in params)
+            for q in params:
+                q["values"] = q["values"][:n]
         calls.append(dict(parameters=params, mode=mode, with_dask=dask, reject=reject,
                           scheduler=r.choice(["synchronous", "threads"]) if dask else None))
     # run orders / subsets: repeat the first call with its values reversed or thinned
